@@ -374,6 +374,8 @@ impl ProofPool {
         }
         self.verifies_in_window += 1;
 
+        #[cfg(quantus_network_qp_zk_circuits_verif)]
+        VERIF_VERIFY_CALLS.fetch_add(1, std::sync::atomic::Ordering::SeqCst);
         self.verifier.verify(proof.clone()).map_err(|e| {
             anyhow!(
                 "refusing to queue invalid private-batch proof: verification failed: {}",
@@ -640,6 +642,92 @@ impl ProofPool {
             .fold(0u64, |acc, sum| acc.saturating_add(sum));
 
         Ok((key, nullifiers, volume))
+    }
+}
+
+/// Verification hook: number of cryptographic verification calls made by
+/// [`ProofPool::push`] in this process (incremented just before each call).
+#[cfg(quantus_network_qp_zk_circuits_verif)]
+pub static VERIF_VERIFY_CALLS: std::sync::atomic::AtomicU64 =
+    std::sync::atomic::AtomicU64::new(0);
+
+/// Verification hook: one pooled proof as seen by [`ProofPool::verif_state`].
+#[cfg(quantus_network_qp_zk_circuits_verif)]
+#[derive(Debug, Clone)]
+pub struct VerifPooledProof {
+    /// Raw (not canonicalised) inner u64 of every public input of the stored proof.
+    pub public_inputs: Vec<u64>,
+    pub nullifiers: Vec<BytesDigest>,
+    pub volume: u64,
+    /// `now - admitted_at`; `None` if `admitted_at` lies in the future.
+    pub age: Option<Duration>,
+}
+
+/// Verification hook: one bucket as seen by [`ProofPool::verif_state`].
+#[cfg(quantus_network_qp_zk_circuits_verif)]
+#[derive(Debug, Clone)]
+pub struct VerifBucket {
+    pub key: BatchKey,
+    /// Admission order.
+    pub proofs: Vec<VerifPooledProof>,
+    /// `None` = never snapshot; `Some(None)` = snapshot time lies in the future.
+    pub last_snapshot_age: Option<Option<Duration>>,
+}
+
+/// Verification hook: the whole internal state of a [`ProofPool`], read-only,
+/// in a canonical order (buckets in key order, index sorted).
+#[cfg(quantus_network_qp_zk_circuits_verif)]
+#[derive(Debug, Clone)]
+pub struct VerifPoolState {
+    pub buckets: Vec<VerifBucket>,
+    pub nullifier_index: Vec<(BytesDigest, BatchKey)>,
+    /// `now - verify_window_started`; `None` if the start lies in the future.
+    pub window_age: Option<Duration>,
+    pub verifies_in_window: usize,
+    pub inner_num_leaves: usize,
+    pub batch_size: usize,
+    pub limits: PoolLimits,
+    pub expected_pi_len: usize,
+}
+
+#[cfg(quantus_network_qp_zk_circuits_verif)]
+impl ProofPool {
+    /// Verification hook: read-only dump of the internal state.
+    pub fn verif_state(&self) -> VerifPoolState {
+        let now = Instant::now();
+        let buckets = self
+            .buckets
+            .iter()
+            .map(|(key, bucket)| VerifBucket {
+                key: *key,
+                proofs: bucket
+                    .proofs
+                    .iter()
+                    .map(|q| VerifPooledProof {
+                        public_inputs: q.proof.public_inputs.iter().map(|f| f.0).collect(),
+                        nullifiers: q.nullifiers.clone(),
+                        volume: q.volume,
+                        age: now.checked_duration_since(q.admitted_at),
+                    })
+                    .collect(),
+                last_snapshot_age: bucket
+                    .last_snapshot_at
+                    .map(|at| now.checked_duration_since(at)),
+            })
+            .collect();
+        let mut nullifier_index: Vec<(BytesDigest, BatchKey)> =
+            self.nullifier_index.iter().map(|(n, k)| (*n, *k)).collect();
+        nullifier_index.sort();
+        VerifPoolState {
+            buckets,
+            nullifier_index,
+            window_age: now.checked_duration_since(self.verify_window_started),
+            verifies_in_window: self.verifies_in_window,
+            inner_num_leaves: self.inner_num_leaves,
+            batch_size: self.batch_size,
+            limits: self.limits,
+            expected_pi_len: self.verifier.common.num_public_inputs,
+        }
     }
 }
 
